@@ -166,3 +166,18 @@ _c.ensures("implies(self.caught_errors is not None, result is None and len(appen
 _c.ensures("implies(self.caught_errors is not None, forall(lambda x: (x in self.seen_errors) == (x in old(self.seen_errors)), 'val') and len(appended(" + _TXT + ")) == 0)",
            name="while_catching_nothing_is_reported_or_consumed")
 _c.ensures("implies(self.caught_errors is None, len(appended('self.caught_errors')) == 0)", name="nothing_is_recorded_outside_catch_errors")
+
+
+# ---------------------------------------------------------------------------
+# NameCheckVisitor's override of is_enabled: the options look-up chain
+# is_enabled -> Options.is_error_code_enabled -> Options._get_value_for_no_default -> ConfigOption.get_value_from_instances (all under contract, c18_options.py)
+
+@contract("pyanalyze.name_check_visitor.NameCheckVisitor.is_enabled", props=P)
+def _(c):
+    c.param("error_code", "val")
+    c.returns("val")
+    c.callee("self.options.is_error_code_enabled", lambda k: (k.param("code", "val"), k.returns("val")))
+    c.record_calls += ["self.options.is_error_code_enabled"]
+    # (what is_enabled answers for objects that are not Error members is not part of C11: no option can name them)
+    c.ensures("implies(isa(error_code, Error), len(appended('self.options.is_error_code_enabled')) == 1 and same(call_args('self.options.is_error_code_enabled', 0)[0], error_code)"
+              " and same(result, call_result('self.options.is_error_code_enabled', 0)))", name="an_error_code_is_enabled_exactly_as_the_options_of_this_module_say")
